@@ -13,7 +13,7 @@ Theorem C12_roundtrip : forall max f,
   exists bs,
     encode max f = EOk bs /\
     rfc_parse_frame max bs = Accept (wire_value_of f) /\
-    (pp_block_nonempty f = true -> model_parse max bs = POk (LdFrame f)).
+    model_parse max bs = POk (LdFrame f).
 Proof. exact FrameCodecProofs.C12_roundtrip. Qed.
 
 (* ... including HEADERS / PUSH_PROMISE split into CONTINUATION frames: reference splitter, parser and
@@ -24,11 +24,27 @@ Theorem C12_roundtrip_stream : forall max f,
 Proof. exact ReadBufProofs.C12_roundtrip_stream. Qed.
 
 (* every octet string is given the same verdict, and on acceptance the same value, by the model of
-   h2's frame loader and by the RFC grammar -- outside the four documented deviations *)
+   h2's frame loader and by the RFC grammar at the codec boundary (RST_STREAM / CONTINUATION on
+   stream 0 are handed up and refused by the stream layer / the reassembly) -- no exception *)
 Theorem C12_parse_agrees_with_rfc : forall max bs,
-  bytes_ok bs = true -> deviation_of bs = DevNone ->
-  agree (model_parse max bs) (rfc_parse_frame max bs) = true.
+  bytes_ok bs = true ->
+  agree (model_parse max bs) (rfc_parse_frame_codec max bs) = true.
 Proof. exact FrameCodecProofs.C12_parse_agrees_with_rfc. Qed.
+
+(* the codec-boundary grammar differs from the plain grammar only by deferring those two refusals *)
+Theorem C12_codec_boundary_only_defers : forall max bs w,
+  rfc_parse_frame_codec max bs = Accept w ->
+  rfc_parse_frame max bs = Accept w \/
+  (deferred_to_upper_layer w = true /\ rfc_parse_frame max bs = Reject PROTOCOL_ERROR).
+Proof. exact FrameCodecProofs.codec_boundary_only_defers. Qed.
+
+(* ... and the deferred CONTINUATION on stream 0 is always refused by decode_frame *)
+Theorem C12_continuation_stream_zero_refused :
+  forall (HS : Type) (ops : hpack_ops HS) mh mc pt hs bytes h payload,
+  parse_head bytes = Some (h, payload) -> kind_new (h_kind h) = KContinuation -> h_sid h = 0 ->
+  match pt with Some p => frame_sid (pt_frame p) <> 0 | None => True end ->
+  snd (decode_frame ops mh mc pt hs bytes) = go_away_protocol.
+Proof. exact @ReadBufProofs.continuation_stream_zero_refused. Qed.
 
 Theorem C12_parse_never_panics : forall max bs, model_parse max bs <> PPanic.
 Proof. exact FrameCodecProofs.model_parse_never_panics. Qed.
@@ -112,7 +128,7 @@ Proof. exact @ReadBufProofs.reader_never_panics. Qed.
 (* the model's own reader parses the model's encoder output (CONTINUATION runs included) back to [f] *)
 Theorem C12_roundtrip_reader : forall smax rmax hls f,
   42 <= smax -> smax <= MAX_MAX_FRAME_SIZE -> smax <= rmax ->
-  frame_wf smax f = true -> pp_block_nonempty f = true ->
+  frame_wf smax f = true ->
   continuations_needed smax f <= calc_max_continuation_frames hls rmax + 1 ->
   exists bs,
     encode smax f = EOk bs /\
